@@ -84,7 +84,7 @@ pub fn response_bound(pred: &[gen::PEv]) -> usize {
     let mut cur = 0;
     for p in pred {
         match p {
-            gen::PEv::Response(b) => cur += b.len(),
+            gen::PEv::Response { canonical, .. } => cur += canonical.len() + 16,
             gen::PEv::ErrNext | gen::PEv::ErrCount | gen::PEv::AnyResponse => cur += 64,
             gen::PEv::EndOfMessage => {
                 worst = worst.max(cur);
